@@ -930,6 +930,20 @@ func genBatch(prop string, g *Gen, m *Model, rng *SplitMix) []Cmd {
 				cmds[len(cmds)-1].Plan = nil
 			}
 		}
+		// the commands that replace or create files go first: they are the ones
+		// whose every step the sweeps park (the first two processes are swept)
+		sort.SliceStable(cmds, func(i, j int) bool {
+			rank := func(c Cmd) int {
+				switch c.Op {
+				case "compact", "plan":
+					return 0
+				case "init":
+					return 1
+				}
+				return 2
+			}
+			return rank(cmds[i]) < rank(cmds[j])
+		})
 	case "C09":
 		// prune racing writers that make its targets ineligible
 		cmds = []Cmd{{Op: "prune", Yes: true}}
